@@ -1,0 +1,55 @@
+//go:build verif
+
+// Machine-checked contracts for package headers (comment-only, tag verif).
+
+package headers
+
+//@ func (h *HeaderInfo) ResX
+//@   requires h != nil
+//@   ensures [C14,C11] result == h.resX
+//@ func (h *HeaderInfo) ResY
+//@   requires h != nil
+//@   ensures [C14,C11] result == h.resY
+//@ func (h *HeaderInfo) FPS
+//@   requires h != nil
+//@   ensures [C14,C11] result == h.fps
+//@ func (h *HeaderInfo) FrameSize
+//@   requires h != nil
+//@   ensures [C14,C11] result == h.framesize
+//@ func (h *HeaderInfo) Model
+//@   requires h != nil
+//@   ensures [C14,C11] result == h.model
+//@ func (h *HeaderInfo) Brand
+//@   requires h != nil
+//@   ensures [C14,C11] result == h.brand
+//@ func (h *HeaderInfo) Firmware
+//@   requires h != nil
+//@   ensures [C14,C11] result == h.firmware
+//@ func (h *HeaderInfo) CameraSerial
+//@   requires h != nil
+//@   ensures [C14,C11] result == h.serial
+
+// toInt / toStr are total: anything that is not an int (string) decodes to 0 ("").
+//@ func toInt
+//@   ensures [C14] result == (dyntype(v) == typecode("int") ? unboxint(v) : 0)
+//@ func toStr
+//@   ensures [C14] result == (dyntype(v) == typecode("string") ? unboxstr(v) : "")
+
+// ReadHeaderInfo: lines are read one at a time from the caller's reader up to and
+// including the first blank line, and nothing after it; every line before it goes
+// to the YAML decoder; any read or decode error yields (nil, err), never a partial
+// description; the fields are toInt/toStr of the decoded map under the shared keys.
+//@ func ReadHeaderInfo
+//@   mode permissive
+//@   allocates
+//@   loop 1 invariant [C14] ncalls("ReadString") == ncalls("WriteString") && ncalls("Unmarshal") == 0
+//@   call ReadString#1 assert [C14] $0 == reader && $1 == 10
+//@   call WriteString#1 assert [C14] $1 == line
+//@   check [C14] result1 != nil ==> result0 == nil
+//@   check [C14] result1 == nil ==> callres("ReadString", 1).1 == nil && ncalls("Trim") >= 1 && callarg("Trim", 1, 0) == callres("ReadString", 1).0 && callarg("Trim", 1, 1) == " " && callres("Trim", 1) == "\n"
+//@   check [C14] result1 == nil ==> result0 != nil && ncalls("ReadString") == ncalls("WriteString") + 1 && ncalls("Unmarshal") == 1 && ncalls("toInt") == 5 && ncalls("toStr") == 3
+//@   check [C14] ncalls("Unmarshal") <= 1 && (ncalls("Unmarshal") == 1 ==> ncalls("Bytes") == 1 && callarg("Unmarshal", 1, 0) == callres("Bytes", 1) && ncalls("ReadString") == ncalls("WriteString") + 1)
+//@   check [C14] ncalls("toInt") == 5 && ncalls("toStr") == 3 ==> result0.resX == callres("toInt", 1) && callarg("toInt", 1, 0) == mapget(h, XResolution) && result0.resY == callres("toInt", 2) && callarg("toInt", 2, 0) == mapget(h, YResolution)
+//@   check [C14] ncalls("toInt") == 5 && ncalls("toStr") == 3 ==> result0.fps == callres("toInt", 3) && callarg("toInt", 3, 0) == mapget(h, FPS) && result0.framesize == callres("toInt", 4) && callarg("toInt", 4, 0) == mapget(h, FrameSize)
+//@   check [C14] ncalls("toInt") == 5 && ncalls("toStr") == 3 ==> result0.brand == callres("toStr", 1) && callarg("toStr", 1, 0) == mapget(h, Brand) && result0.model == callres("toStr", 2) && callarg("toStr", 2, 0) == mapget(h, Model)
+//@   check [C14] ncalls("toInt") == 5 && ncalls("toStr") == 3 ==> result0.serial == callres("toInt", 5) && callarg("toInt", 5, 0) == mapget(h, Serial) && result0.firmware == callres("toStr", 3) && callarg("toStr", 3, 0) == mapget(h, Firmware)
